@@ -28,4 +28,36 @@ Argv(base, named, requested, args, nobase) ==
 ResolveOK(defpath, hasdef, candidates, cmd, exe) ==
   IF hasdef THEN exe = defpath
   ELSE \E f \in candidates : f.stem = cmd /\ f.path = exe
+(* `target show --commands` / `--argmaps`: the names listed for a target and  *)
+(* the file displayed for each (beyond the listed properties; bound as a      *)
+(* MODEL-DRIFT note, never as a violation).                                   *)
+(*   defs        set of [name, path] - path = <<>> when the definition gives  *)
+(*               none                                                         *)
+(*   candidates  set of [path, stem] - regular files of the directory         *)
+(* A directory file is listed under its stem unless it is itself the explicit *)
+(* path of some definition. DEVIATION (as built, src/app/target.rs            *)
+(* find_target_files): the directory walk runs after the definitions and      *)
+(* overwrites them, so a directory file whose stem equals a defined name      *)
+(* shadows that definition's explicit path in the display - while `run`       *)
+(* (ResolveOK above) executes the explicit path.                              *)
+DirListed(defs, candidates) == { f \in candidates : ~\E d \in defs : d.path = f.path }
+ShownNames(defs, candidates) == { d.name : d \in defs } \cup { f.stem : f \in DirListed(defs, candidates) }
+ShownPathOK(defs, candidates, name, shown) ==
+  LET dirfiles == { f \in DirListed(defs, candidates) : f.stem = name }
+      explicit == { d \in defs : d.name = name /\ d.path # <<>> }
+      bystem   == { f \in candidates : f.stem = name }
+  IN IF dirfiles # {} THEN \E f \in dirfiles : shown = f.path
+     ELSE IF explicit # {} THEN \E d \in explicit : shown = d.path
+     ELSE IF bystem # {} /\ (\E d \in defs : d.name = name) THEN \E f \in bystem : shown = f.path
+     ELSE shown = <<>>
+\* what `run` executes for the same name (<<>> = undefined)
+RunExeOK(defs, candidates, name, exe) ==
+  LET explicit == { d \in defs : d.name = name /\ d.path # <<>> } IN
+  IF explicit # {} THEN \E d \in explicit : exe = d.path
+  ELSE IF \E f \in candidates : f.stem = name THEN \E f \in candidates : f.stem = name /\ f.path = exe
+  ELSE exe = <<>>
+\* the display and the execution agree except under the deviation above
+Shadowed(defs, candidates, name) ==
+  /\ \E d \in defs : d.name = name /\ d.path # <<>>
+  /\ \E f \in DirListed(defs, candidates) : f.stem = name
 =============================================================================
